@@ -9,9 +9,7 @@ use crate::execution::{ExecutionConfig, SharedMemoryPool};
 use crate::physical::operators::filter::evaluate_expr;
 use crate::physical::{PhysicalOperator, RecordBatchStream};
 use crate::planner::{Expr, JoinType};
-use arrow::array::{
-    ArrayRef, Date32Array, Float64Array, Int64Array, StringArray, UInt32Array, UInt64Array,
-};
+use arrow::array::{ArrayRef, UInt32Array};
 use arrow::compute;
 use arrow::datatypes::{Schema, SchemaRef};
 use arrow::record_batch::RecordBatch;
@@ -415,6 +413,13 @@ impl SpillableHashJoinExec {
             ));
         }
 
+        let build_side_schema = if swapped {
+            self.right.schema()
+        } else {
+            self.left.schema()
+        };
+        let build_batches = unify_spill_batches(build_batches, &build_side_schema)?;
+
         self.config.ensure_spill_dir()?;
 
         let spill_id = SPILL_COUNTER.fetch_add(1, Ordering::Relaxed);
@@ -456,6 +461,7 @@ impl SpillableHashJoinExec {
             let batches: Vec<RecordBatch> = probe_stream.try_collect().await?;
             probe_batches.extend(batches);
         }
+        let probe_batches = unify_spill_batches(probe_batches, &probe_side.schema())?;
         let probe_stream: RecordBatchStream =
             Box::pin(stream::iter(probe_batches.into_iter().map(Ok)));
         let (results, mut probe_spill_files) = self
@@ -613,6 +619,12 @@ impl SpillableHashJoinExec {
         swapped: bool,
         _idx: usize,
     ) -> Result<Vec<RecordBatch>> {
+        // A partition evicted while still empty has no file unless build rows
+        // arrived for it later: an empty build side, no matches.
+        if !spilled.build_file.exists() {
+            return Ok(Vec::new());
+        }
+
         // Read build side from disk
         let build_batches = read_parquet(&spilled.build_file)?;
 
@@ -1109,6 +1121,7 @@ impl PhysicalOperator for SpillableHashAggregateExec {
         }
 
         // Data exceeds memory — use spillable aggregation path
+        let all_batches = unify_spill_batches(all_batches, &self.input.schema())?;
         self.config.ensure_spill_dir()?;
 
         let spill_id = SPILL_COUNTER.fetch_add(1, Ordering::Relaxed);
@@ -1144,7 +1157,7 @@ impl PhysicalOperator for SpillableHashAggregateExec {
             eprintln!(
                 "[spill-agg] in-memory rows {}, spilled files {}",
                 mem_rows,
-                spilled_files.iter().flatten().count()
+                spilled_files.iter().map(|f| f.len()).sum::<usize>()
             );
         }
 
@@ -1173,7 +1186,7 @@ impl PhysicalOperator for SpillableHashAggregateExec {
         let mut all_results = Vec::new();
         for (idx, part) in in_memory_partitions.into_iter().enumerate() {
             let mut batches: Vec<RecordBatch> = Vec::new();
-            if let Some(path) = &spilled_files[idx] {
+            for path in &spilled_files[idx] {
                 batches.extend(read_parquet(path)?);
             }
             if let Some(part) = part {
@@ -1221,12 +1234,17 @@ impl SpillableHashAggregateExec {
         &self,
         mut input_stream: RecordBatchStream,
         spill_dir: &PathBuf,
-    ) -> Result<(Vec<Option<AggregatePartition>>, Vec<Option<PathBuf>>)> {
+    ) -> Result<(Vec<Option<AggregatePartition>>, Vec<Vec<PathBuf>>)> {
         let mut partitions: Vec<Option<AggregatePartition>> = (0..NUM_PARTITIONS)
             .map(|_| Some(AggregatePartition::new()))
             .collect();
-        let mut spilled_files: Vec<Option<PathBuf>> = (0..NUM_PARTITIONS).map(|_| None).collect();
-        let mut spill_file_counts: Vec<usize> = vec![0; NUM_PARTITIONS];
+        // Every eviction of a partition adds ONE file to its list; the files
+        // are read back in order. (Merging each new file into a single file
+        // per partition rewrote that file on every eviction: quadratic in the
+        // partition size, and with an empty GROUP BY — one partition — a large
+        // input under a small budget effectively never finished.)
+        let mut spilled_files: Vec<Vec<PathBuf>> =
+            (0..NUM_PARTITIONS).map(|_| Vec::new()).collect();
 
         let mut total_memory: usize = 0;
         let memory_threshold =
@@ -1263,27 +1281,14 @@ impl SpillableHashAggregateExec {
                                 // Spill this partition
                                 let spill_path = spill_dir.join(format!(
                                     "part_{}_{}.parquet",
-                                    idx, spill_file_counts[idx]
+                                    idx,
+                                    spilled_files[idx].len()
                                 ));
-                                spill_file_counts[idx] += 1;
 
                                 write_batches_to_parquet(&spill_path, &part.batches)?;
                                 self.memory_pool.record_spill(part.memory_bytes);
                                 total_memory -= part.memory_bytes;
-
-                                // If we already have a spill file for this partition, merge them
-                                if let Some(ref existing_path) = spilled_files[idx] {
-                                    // Append new file path to a list file or merge
-                                    // For simplicity, we'll just keep the latest and merge on read
-                                    merge_parquet_files(
-                                        existing_path,
-                                        &spill_path,
-                                        spill_dir,
-                                        idx,
-                                    )?;
-                                } else {
-                                    spilled_files[idx] = Some(spill_path);
-                                }
+                                spilled_files[idx].push(spill_path);
 
                                 part.clear();
                             }
@@ -1301,13 +1306,6 @@ impl SpillableHashAggregateExec {
                         if let Some(ref mut part) = partitions[idx] {
                             part.add_batch(pb);
                             total_memory += pb_size;
-                        } else if let Some(ref spill_path) = spilled_files[idx] {
-                            // Partition was fully spilled, append to spill file
-                            let temp_path = spill_dir
-                                .join(format!("temp_{}_{}.parquet", idx, spill_file_counts[idx]));
-                            spill_file_counts[idx] += 1;
-                            write_batches_to_parquet(&temp_path, &[pb])?;
-                            merge_parquet_files(spill_path, &temp_path, spill_dir, idx)?;
                         }
                     }
                 }
@@ -1410,25 +1408,27 @@ impl PhysicalOperator for ExternalSortExec {
             return Ok(Box::pin(stream::empty()));
         }
 
+        // Name the columns as the plan declares them (keeping actual types),
+        // as the detour through MemoryTableExec used to. Both paths below then
+        // sort the SAME batches in the SAME order — which is what makes the
+        // order of tied rows independent of the memory limit.
+        let all_batches = all_batches
+            .into_iter()
+            .map(|b| super::sort::rewrap_with_declared_names(b, &self.schema))
+            .collect::<Result<Vec<_>>>()?;
+
         if !exceeded {
-            // Data fits in memory — use the regular SortExec path for correctness
-            // Create a temporary MemoryTableExec with our already-collected data
-            let mem = crate::physical::operators::MemoryTableExec::new(
-                "sort_input",
-                self.schema.clone(),
+            // Data fits in memory — the regular in-memory sort, on the batches
+            // in the order they were collected. (Wrapping them in a
+            // MemoryTableExec under a SortExec dealt them round-robin over
+            // its partitions and re-collected them in a different order.)
+            let sorted = super::sort::sort_collected_batches(
                 all_batches,
-                None,
-            );
-            let sort = if let Some(fetch) = self.fetch {
-                crate::physical::operators::SortExec::with_fetch(
-                    Arc::new(mem),
-                    self.order_by.clone(),
-                    fetch,
-                )
-            } else {
-                crate::physical::operators::SortExec::new(Arc::new(mem), self.order_by.clone())
-            };
-            return sort.execute(0).await;
+                &self.schema,
+                &self.order_by,
+                self.fetch,
+            )?;
+            return Ok(Box::pin(stream::once(async { Ok(sorted) })));
         }
 
         // Data exceeds memory — use external sort with spilling
@@ -1443,29 +1443,19 @@ impl PhysicalOperator for ExternalSortExec {
             QueryError::Execution(format!("Failed to create spill directory: {}", e))
         })?;
 
-        let input_stream: RecordBatchStream =
-            Box::pin(stream::iter(all_batches.into_iter().map(Ok)));
+        // Same normalization as the in-memory sort: every batch of a run (and
+        // every run of a merge) must share one schema.
+        let all_batches = super::sort::normalize_batch_schemas(all_batches, &self.schema);
 
-        // Generate sorted runs
-        let runs = self.generate_runs(input_stream, &spill_dir).await?;
-
-        // Merge runs
-        let result = if runs.is_empty() {
-            Vec::new()
-        } else if runs.len() == 1 {
-            if runs[0].is_file() {
-                read_parquet(&runs[0])?
-            } else {
-                Vec::new()
-            }
-        } else {
-            self.merge_runs(&runs)?
+        // Generate sorted runs, then merge them. The spill directory is
+        // removed on success AND on error.
+        let result = match all_batches {
+            Ok(batches) => self.sort_spilling(batches, &spill_dir).await,
+            Err(e) => Err(e),
         };
-
-        // Clean up
         let _ = std::fs::remove_dir_all(&spill_dir);
 
-        Ok(Box::pin(stream::iter(result.into_iter().map(Ok))))
+        Ok(Box::pin(stream::iter(result?.into_iter().map(Ok))))
     }
 
     fn name(&self) -> &str {
@@ -1473,7 +1463,77 @@ impl PhysicalOperator for ExternalSortExec {
     }
 }
 
+/// Rows per batch read from a run during a merge, and per merged output batch.
+const MERGE_BATCH_ROWS: usize = 8192;
+/// Maximum number of runs merged at once; more runs are merged in passes.
+const MAX_MERGE_FANIN: usize = 8;
+
+/// One sorted run being merged: the batch currently loaded from its spill
+/// file, that batch's sort keys (evaluated ONCE per batch), and the position
+/// of the next row to emit.
+struct RunCursor {
+    reader: parquet::arrow::arrow_reader::ParquetRecordBatchReader,
+    batch: Option<RecordBatch>,
+    keys: Vec<ArrayRef>,
+    pos: usize,
+}
+
+impl RunCursor {
+    fn open(path: &PathBuf, order_by: &[crate::planner::SortExpr]) -> Result<Self> {
+        let file = File::open(path).map_err(|e| {
+            QueryError::Execution(format!("Failed to open run file {:?}: {}", path, e))
+        })?;
+        let reader = ParquetRecordBatchReaderBuilder::try_new(file)?
+            .with_batch_size(MERGE_BATCH_ROWS)
+            .build()?;
+        let mut cursor = Self {
+            reader,
+            batch: None,
+            keys: Vec::new(),
+            pos: 0,
+        };
+        cursor.load_next(order_by)?;
+        Ok(cursor)
+    }
+
+    /// Load the run's next non-empty batch; `batch` is `None` once the run
+    /// is exhausted. A read or key-evaluation error fails the query — it is
+    /// never treated as "no more rows" or "keys compare equal".
+    fn load_next(&mut self, order_by: &[crate::planner::SortExpr]) -> Result<()> {
+        self.batch = None;
+        self.keys.clear();
+        self.pos = 0;
+        for next in self.reader.by_ref() {
+            let batch = next?;
+            if batch.num_rows() == 0 {
+                continue;
+            }
+            self.keys = order_by
+                .iter()
+                .map(|s| evaluate_expr(&batch, &s.expr))
+                .collect::<Result<Vec<_>>>()?;
+            self.batch = Some(batch);
+            break;
+        }
+        Ok(())
+    }
+}
+
 impl ExternalSortExec {
+    async fn sort_spilling(
+        &self,
+        all_batches: Vec<RecordBatch>,
+        spill_dir: &PathBuf,
+    ) -> Result<Vec<RecordBatch>> {
+        let input_stream: RecordBatchStream =
+            Box::pin(stream::iter(all_batches.into_iter().map(Ok)));
+        let runs = self.generate_runs(input_stream, spill_dir).await?;
+        self.merge_runs(runs, spill_dir)
+    }
+
+    /// Split the input into consecutive chunks that fit the budget, sort each
+    /// chunk and write it out as a run. Run `i` holds input rows that all
+    /// precede those of run `i + 1` — the merge relies on that for stability.
     async fn generate_runs(
         &self,
         mut input_stream: RecordBatchStream,
@@ -1518,15 +1578,13 @@ impl ExternalSortExec {
     }
 
     fn flush_run(&self, batches: &[RecordBatch], path: &PathBuf) -> Result<()> {
-        if batches.is_empty() {
-            return Ok(());
-        }
+        // Concatenate batches (they share one schema, see normalize_batch_schemas)
+        let combined = compute::concat_batches(&batches[0].schema(), batches)?;
 
-        // Concatenate batches
-        let combined = compute::concat_batches(&self.schema, batches)?;
-
-        // Sort
-        let sorted = sort_batch(&combined, &self.order_by)?;
+        // Sort with the SAME function as the in-memory path: every SortExpr
+        // option, every key type, ties in input order. With a fetch only the
+        // run's first `fetch` rows can reach the output.
+        let sorted = super::sort::sort_batch(&combined, &self.order_by, self.fetch)?;
 
         // Write to disk
         write_batches_to_parquet(path, &[sorted])?;
@@ -1534,336 +1592,181 @@ impl ExternalSortExec {
         Ok(())
     }
 
-    fn merge_runs(&self, runs: &[PathBuf]) -> Result<Vec<RecordBatch>> {
-        // Streaming k-way merge: process runs in batches to limit memory
-        // Maximum number of runs to merge at once
-        const MAX_MERGE_FANIN: usize = 8;
-        // Maximum rows to buffer per run during merge
-        const MERGE_BUFFER_ROWS: usize = 8192;
-
-        if runs.is_empty() {
-            return Ok(Vec::new());
-        }
-
-        if runs.len() == 1 {
-            return read_parquet(&runs[0]);
-        }
-
-        // If we have too many runs, merge in multiple passes
-        if runs.len() > MAX_MERGE_FANIN {
-            return self.multi_pass_merge(runs, MAX_MERGE_FANIN);
-        }
-
-        // Single-pass k-way merge with bounded memory
-        self.streaming_k_way_merge(runs, MERGE_BUFFER_ROWS)
-    }
-
-    /// Multi-pass merge for when there are too many runs
-    fn multi_pass_merge(&self, runs: &[PathBuf], fanin: usize) -> Result<Vec<RecordBatch>> {
-        let mut current_runs = runs.to_vec();
+    /// Merge the runs into the final output, at most `MAX_MERGE_FANIN` at a
+    /// time. Intermediate passes merge CONSECUTIVE runs into a new run that
+    /// takes their place, so run order keeps meaning input order.
+    fn merge_runs(&self, mut runs: Vec<PathBuf>, spill_dir: &PathBuf) -> Result<Vec<RecordBatch>> {
         let mut pass = 0;
-
-        // Get spill directory from first run's parent
-        let spill_dir = runs[0].parent().unwrap_or(std::path::Path::new("/tmp"));
-
-        while current_runs.len() > fanin {
+        while runs.len() > MAX_MERGE_FANIN {
             let mut next_runs = Vec::new();
-
-            for chunk in current_runs.chunks(fanin) {
+            for (chunk_idx, chunk) in runs.chunks(MAX_MERGE_FANIN).enumerate() {
                 if chunk.len() == 1 {
                     next_runs.push(chunk[0].clone());
-                } else {
-                    // Merge this chunk into a new run
-                    let merged = self.streaming_k_way_merge(chunk, 8192)?;
-                    if !merged.is_empty() {
-                        let output_path = spill_dir.join(format!(
-                            "merged_pass{}_{}.parquet",
-                            pass,
-                            next_runs.len()
-                        ));
-                        write_batches_to_parquet(&output_path, &merged)?;
-                        next_runs.push(output_path);
-                    }
+                    continue;
                 }
-            }
-
-            // Clean up old runs from previous pass (except original runs)
-            if pass > 0 {
-                for run in &current_runs {
+                // Stream the merged rows straight into the new run file.
+                let path = spill_dir.join(format!("merged_pass{}_{}.parquet", pass, chunk_idx));
+                let mut writer: Option<ArrowWriter<File>> = None;
+                self.merge_sorted_runs(chunk, &mut |batch| {
+                    if writer.is_none() {
+                        let file = File::create(&path).map_err(|e| {
+                            QueryError::Execution(format!(
+                                "Failed to create parquet file {:?}: {}",
+                                path, e
+                            ))
+                        })?;
+                        let props = WriterProperties::builder()
+                            .set_compression(Compression::SNAPPY)
+                            .build();
+                        writer = Some(ArrowWriter::try_new(file, batch.schema(), Some(props))?);
+                    }
+                    if let Some(w) = writer.as_mut() {
+                        w.write(&batch)?;
+                    }
+                    Ok(())
+                })?;
+                // A chunk of empty runs produces no rows and no run.
+                if let Some(w) = writer {
+                    w.close()?;
+                    next_runs.push(path);
+                }
+                for run in chunk {
                     let _ = std::fs::remove_file(run);
                 }
             }
-
-            current_runs = next_runs;
+            runs = next_runs;
             pass += 1;
         }
 
-        // Final merge
-        self.streaming_k_way_merge(&current_runs, 8192)
+        let mut result = Vec::new();
+        self.merge_sorted_runs(&runs, &mut |batch| {
+            result.push(batch);
+            Ok(())
+        })?;
+        Ok(result)
     }
 
-    /// Streaming k-way merge with bounded memory usage
-    fn streaming_k_way_merge(
+    /// Streaming k-way merge of sorted runs with bounded memory: one batch of
+    /// `MERGE_BATCH_ROWS` rows per run. Stops after `fetch` rows.
+    ///
+    /// Rows are compared with `arrow::array::make_comparator` — the comparator
+    /// `lexsort_to_indices` itself is built from — under each SortExpr's own
+    /// options, so the merge order IS the order the runs were sorted in. Rows
+    /// equal on every key are taken from the lowest-numbered run first, which
+    /// (runs being consecutive chunks of the input, each sorted stably) keeps
+    /// them in input order exactly as the in-memory sort does.
+    fn merge_sorted_runs(
         &self,
         runs: &[PathBuf],
-        buffer_rows: usize,
-    ) -> Result<Vec<RecordBatch>> {
-        use std::cmp::Ordering;
+        sink: &mut dyn FnMut(RecordBatch) -> Result<()>,
+    ) -> Result<()> {
+        use arrow::array::{make_comparator, DynComparator};
+        use arrow::compute::SortOptions;
 
-        if runs.is_empty() {
-            return Ok(Vec::new());
-        }
+        let options: Vec<SortOptions> = self
+            .order_by
+            .iter()
+            .map(|s| SortOptions {
+                descending: s.direction == crate::planner::SortDirection::Desc,
+                nulls_first: matches!(s.nulls, crate::planner::NullOrdering::NullsFirst),
+            })
+            .collect();
 
-        // Open iterators for each run
-        let mut run_iterators: Vec<
-            Box<dyn Iterator<Item = std::result::Result<RecordBatch, arrow::error::ArrowError>>>,
-        > = Vec::new();
-        let mut run_buffers: Vec<Option<RecordBatch>> = Vec::new();
-        let mut run_indices: Vec<usize> = Vec::new(); // Current row index in each buffer
+        let mut cursors = runs
+            .iter()
+            .map(|run| RunCursor::open(run, &self.order_by))
+            .collect::<Result<Vec<_>>>()?;
+        let k = cursors.len();
 
-        for run in runs {
-            let file = File::open(run).map_err(|e| {
-                QueryError::Execution(format!("Failed to open run file {:?}: {}", run, e))
-            })?;
-            let builder =
-                ParquetRecordBatchReaderBuilder::try_new(file)?.with_batch_size(buffer_rows);
-            let reader = builder.build()?;
-            run_iterators.push(Box::new(reader));
-            run_buffers.push(None);
-            run_indices.push(0);
-        }
+        // comparators[lo][hi] (lo < hi) compares a row of run `lo`'s current
+        // batch with a row of run `hi`'s; rebuilt when either batch changes.
+        let mut comparators: Vec<Vec<Option<Vec<DynComparator>>>> =
+            (0..k).map(|_| (0..k).map(|_| None).collect()).collect();
 
-        // Load initial batch from each run
-        for (i, iter) in run_iterators.iter_mut().enumerate() {
-            if let Some(batch_result) = iter.next() {
-                run_buffers[i] = Some(batch_result?);
-                run_indices[i] = 0;
+        // Emit the pending (run, row) picks as one batch. Every pick refers to
+        // its run's CURRENT batch: pending is flushed before a batch is replaced.
+        let flush = |cursors: &[RunCursor],
+                     pending: &mut Vec<(usize, usize)>,
+                     sink: &mut dyn FnMut(RecordBatch) -> Result<()>|
+         -> Result<()> {
+            if pending.is_empty() {
+                return Ok(());
             }
-        }
-
-        // Build output batches using a simple row-by-row merge
-        // For better performance, we'd want to do vectorized merge, but this is memory-safe
-        let mut result_batches = Vec::new();
-        let mut output_rows: Vec<(usize, usize)> = Vec::new(); // (run_idx, row_idx)
-
-        // Helper to compare rows
-        let compare_rows = |batch_a: &RecordBatch,
-                            row_a: usize,
-                            batch_b: &RecordBatch,
-                            row_b: usize,
-                            order_by: &[crate::planner::SortExpr]|
-         -> std::cmp::Ordering {
-            for sort_expr in order_by {
-                let col_a = evaluate_expr(batch_a, &sort_expr.expr).ok();
-                let col_b = evaluate_expr(batch_b, &sort_expr.expr).ok();
-
-                if let (Some(a), Some(b)) = (col_a, col_b) {
-                    let cmp = compare_array_values(&a, row_a, &b, row_b);
-                    let cmp = if sort_expr.direction == crate::planner::SortDirection::Desc {
-                        cmp.reverse()
-                    } else {
-                        cmp
-                    };
-                    if cmp != Ordering::Equal {
-                        return cmp;
-                    }
+            let mut slot = vec![usize::MAX; cursors.len()];
+            let mut live: Vec<&RecordBatch> = Vec::new();
+            for (run, cursor) in cursors.iter().enumerate() {
+                if let Some(batch) = &cursor.batch {
+                    slot[run] = live.len();
+                    live.push(batch);
                 }
             }
-            Ordering::Equal
+            let picks: Vec<(usize, usize)> =
+                pending.iter().map(|&(run, row)| (slot[run], row)).collect();
+            let merged = compute::interleave_record_batch(&live, &picks)?;
+            pending.clear();
+            sink(merged)
         };
 
-        // Simple merge: repeatedly find minimum across all runs
-        loop {
-            // Find run with minimum current row
-            let mut min_run: Option<usize> = None;
+        let limit = self.fetch.unwrap_or(usize::MAX);
+        let mut emitted = 0usize;
+        let mut pending: Vec<(usize, usize)> = Vec::with_capacity(MERGE_BATCH_ROWS);
 
-            for (run_idx, buffer) in run_buffers.iter().enumerate() {
-                if let Some(ref batch) = buffer {
-                    if run_indices[run_idx] < batch.num_rows() {
-                        min_run = match min_run {
-                            None => Some(run_idx),
-                            Some(current_min) => {
-                                let cmp = compare_rows(
-                                    batch,
-                                    run_indices[run_idx],
-                                    run_buffers[current_min].as_ref().unwrap(),
-                                    run_indices[current_min],
-                                    &self.order_by,
-                                );
-                                if cmp == Ordering::Less {
-                                    Some(run_idx)
-                                } else {
-                                    Some(current_min)
-                                }
-                            }
-                        };
+        while emitted + pending.len() < limit {
+            // Smallest current row; on a tie the lowest run index wins.
+            let mut min: Option<usize> = None;
+            for run in 0..k {
+                if cursors[run].batch.is_none() {
+                    continue;
+                }
+                let Some(m) = min else {
+                    min = Some(run);
+                    continue;
+                };
+                if comparators[m][run].is_none() {
+                    let built = cursors[m]
+                        .keys
+                        .iter()
+                        .zip(cursors[run].keys.iter())
+                        .zip(options.iter())
+                        .map(|((a, b), opts)| make_comparator(a.as_ref(), b.as_ref(), *opts))
+                        .collect::<std::result::Result<Vec<_>, _>>()?;
+                    comparators[m][run] = Some(built);
+                }
+                let mut ordering = std::cmp::Ordering::Equal;
+                for cmp in comparators[m][run].iter().flatten() {
+                    ordering = cmp(cursors[m].pos, cursors[run].pos);
+                    if ordering != std::cmp::Ordering::Equal {
+                        break;
                     }
                 }
-            }
-
-            match min_run {
-                None => break, // All runs exhausted
-                Some(run_idx) => {
-                    output_rows.push((run_idx, run_indices[run_idx]));
-                    run_indices[run_idx] += 1;
-
-                    // Check if current buffer is exhausted
-                    if let Some(ref batch) = run_buffers[run_idx] {
-                        if run_indices[run_idx] >= batch.num_rows() {
-                            // Try to load next batch from this run
-                            if let Some(next_batch) = run_iterators[run_idx].next() {
-                                run_buffers[run_idx] = Some(next_batch?);
-                                run_indices[run_idx] = 0;
-                            } else {
-                                run_buffers[run_idx] = None;
-                            }
-                        }
-                    }
-
-                    // Flush output when buffer is full
-                    if output_rows.len() >= buffer_rows {
-                        let batch = self.build_merged_batch(&run_buffers, &output_rows)?;
-                        result_batches.push(batch);
-                        output_rows.clear();
-                    }
+                if ordering == std::cmp::Ordering::Greater {
+                    min = Some(run);
                 }
             }
-        }
+            let Some(run) = min else {
+                break; // all runs exhausted
+            };
 
-        // Flush remaining output
-        if !output_rows.is_empty() {
-            // For the final batch, we need to reload any exhausted buffers
-            // that are referenced in output_rows
-            let batch = self.build_merged_batch_final(&runs, &output_rows, buffer_rows)?;
-            result_batches.push(batch);
-        }
+            pending.push((run, cursors[run].pos));
+            cursors[run].pos += 1;
 
-        Ok(result_batches)
-    }
-
-    /// Build a merged batch from the given row references
-    fn build_merged_batch(
-        &self,
-        run_buffers: &[Option<RecordBatch>],
-        rows: &[(usize, usize)],
-    ) -> Result<RecordBatch> {
-        if rows.is_empty() {
-            return Ok(RecordBatch::new_empty(self.schema.clone()));
-        }
-
-        // Group rows by run
-        let mut run_row_groups: HashMap<usize, Vec<(usize, usize)>> = HashMap::new();
-        for (output_idx, &(run_idx, row_idx)) in rows.iter().enumerate() {
-            run_row_groups
-                .entry(run_idx)
-                .or_default()
-                .push((output_idx, row_idx));
-        }
-
-        // Build output columns
-        let num_cols = self.schema.fields().len();
-        let mut output_columns: Vec<Vec<(usize, ArrayRef)>> = vec![Vec::new(); num_cols];
-
-        for (run_idx, row_list) in run_row_groups {
-            if let Some(ref batch) = run_buffers[run_idx] {
-                let take_indices: Vec<u32> = row_list.iter().map(|(_, r)| *r as u32).collect();
-                let indices_arr = UInt32Array::from(take_indices);
-
-                for col_idx in 0..num_cols.min(batch.num_columns()) {
-                    let taken = compute::take(batch.column(col_idx), &indices_arr, None)?;
-                    for (i, (out_idx, _)) in row_list.iter().enumerate() {
-                        let single =
-                            compute::take(&taken, &UInt32Array::from(vec![i as u32]), None)?;
-                        output_columns[col_idx].push((*out_idx, single));
-                    }
+            let batch_done = cursors[run]
+                .batch
+                .as_ref()
+                .is_some_and(|b| cursors[run].pos >= b.num_rows());
+            if batch_done || pending.len() >= MERGE_BATCH_ROWS {
+                emitted += pending.len();
+                flush(&cursors, &mut pending, sink)?;
+            }
+            if batch_done {
+                cursors[run].load_next(&self.order_by)?;
+                for other in 0..k {
+                    comparators[run][other] = None;
+                    comparators[other][run] = None;
                 }
             }
         }
-
-        // Sort and concatenate columns
-        let mut final_columns: Vec<ArrayRef> = Vec::new();
-        for col_parts in output_columns {
-            let mut sorted_parts = col_parts;
-            sorted_parts.sort_by_key(|(idx, _)| *idx);
-            let arrays: Vec<&dyn arrow::array::Array> =
-                sorted_parts.iter().map(|(_, arr)| arr.as_ref()).collect();
-            if arrays.is_empty() {
-                final_columns.push(arrow::array::new_null_array(
-                    self.schema.field(final_columns.len()).data_type(),
-                    rows.len(),
-                ));
-            } else {
-                final_columns.push(compute::concat(&arrays)?);
-            }
-        }
-
-        RecordBatch::try_new(self.schema.clone(), final_columns).map_err(Into::into)
-    }
-
-    /// Build final merged batch, reloading data from files if needed
-    fn build_merged_batch_final(
-        &self,
-        runs: &[PathBuf],
-        rows: &[(usize, usize)],
-        _buffer_rows: usize,
-    ) -> Result<RecordBatch> {
-        if rows.is_empty() {
-            return Ok(RecordBatch::new_empty(self.schema.clone()));
-        }
-
-        // For the final batch, we may need to re-read some runs
-        // Group by run and load only what we need
-        let mut run_row_groups: HashMap<usize, Vec<(usize, usize)>> = HashMap::new();
-        for (output_idx, &(run_idx, row_idx)) in rows.iter().enumerate() {
-            run_row_groups
-                .entry(run_idx)
-                .or_default()
-                .push((output_idx, row_idx));
-        }
-
-        let num_cols = self.schema.fields().len();
-        let mut output_columns: Vec<Vec<(usize, ArrayRef)>> = vec![Vec::new(); num_cols];
-
-        for (run_idx, row_list) in run_row_groups {
-            // Read the run
-            let batches = read_parquet(&runs[run_idx])?;
-            if batches.is_empty() {
-                continue;
-            }
-
-            // Concatenate all batches from this run
-            let combined = compute::concat_batches(&batches[0].schema(), &batches)?;
-
-            let take_indices: Vec<u32> = row_list.iter().map(|(_, r)| *r as u32).collect();
-            let indices_arr = UInt32Array::from(take_indices);
-
-            for col_idx in 0..num_cols.min(combined.num_columns()) {
-                let taken = compute::take(combined.column(col_idx), &indices_arr, None)?;
-                for (i, (out_idx, _)) in row_list.iter().enumerate() {
-                    let single = compute::take(&taken, &UInt32Array::from(vec![i as u32]), None)?;
-                    output_columns[col_idx].push((*out_idx, single));
-                }
-            }
-        }
-
-        // Sort and concatenate columns
-        let mut final_columns: Vec<ArrayRef> = Vec::new();
-        for col_parts in output_columns {
-            let mut sorted_parts = col_parts;
-            sorted_parts.sort_by_key(|(idx, _)| *idx);
-            let arrays: Vec<&dyn arrow::array::Array> =
-                sorted_parts.iter().map(|(_, arr)| arr.as_ref()).collect();
-            if arrays.is_empty() {
-                final_columns.push(arrow::array::new_null_array(
-                    self.schema.field(final_columns.len()).data_type(),
-                    rows.len(),
-                ));
-            } else {
-                final_columns.push(compute::concat(&arrays)?);
-            }
-        }
-
-        RecordBatch::try_new(self.schema.clone(), final_columns).map_err(Into::into)
+        flush(&cursors, &mut pending, sink)
     }
 }
 
@@ -1946,138 +1849,13 @@ fn find_largest_agg_partition(partitions: &[Option<AggregatePartition>]) -> Opti
         .map(|(idx, _)| idx)
 }
 
-/// Merge two parquet files into one, using streaming to limit memory
-fn merge_parquet_files(
-    existing: &PathBuf,
-    new_file: &PathBuf,
-    spill_dir: &PathBuf,
-    partition_idx: usize,
-) -> Result<()> {
-    // Use a streaming approach: create a new merged file
-    let merged_path = spill_dir.join(format!("merged_{}.parquet", partition_idx));
-
-    // Open readers for both files
-    let file1 = File::open(existing)
-        .map_err(|e| QueryError::Execution(format!("Failed to open file {:?}: {}", existing, e)))?;
-    let file2 = File::open(new_file)
-        .map_err(|e| QueryError::Execution(format!("Failed to open file {:?}: {}", new_file, e)))?;
-
-    let reader1 = ParquetRecordBatchReaderBuilder::try_new(file1)?
-        .with_batch_size(8192)
-        .build()?;
-    let reader2 = ParquetRecordBatchReaderBuilder::try_new(file2)?
-        .with_batch_size(8192)
-        .build()?;
-
-    // Get schema from first file
-    let schema = {
-        let file = File::open(existing)?;
-        let builder = ParquetRecordBatchReaderBuilder::try_new(file)?;
-        builder.schema().clone()
-    };
-
-    // Create output file
-    let output_file = File::create(&merged_path).map_err(|e| {
-        QueryError::Execution(format!(
-            "Failed to create merged file {:?}: {}",
-            merged_path, e
-        ))
-    })?;
-
-    let props = WriterProperties::builder()
-        .set_compression(Compression::SNAPPY)
-        .build();
-
-    let mut writer = ArrowWriter::try_new(output_file, schema, Some(props))?;
-
-    // Stream batches from both files
-    for batch_result in reader1 {
-        let batch = batch_result?;
-        writer.write(&batch)?;
-    }
-
-    for batch_result in reader2 {
-        let batch = batch_result?;
-        writer.write(&batch)?;
-    }
-
-    writer.close()?;
-
-    // Replace existing file with merged file
-    std::fs::rename(&merged_path, existing)
-        .map_err(|e| QueryError::Execution(format!("Failed to rename merged file: {}", e)))?;
-
-    // Remove the new file since it's been merged
-    let _ = std::fs::remove_file(new_file);
-
-    Ok(())
-}
-
-/// Compare two array values at given indices
-fn compare_array_values(
-    a: &ArrayRef,
-    row_a: usize,
-    b: &ArrayRef,
-    row_b: usize,
-) -> std::cmp::Ordering {
-    use std::cmp::Ordering;
-
-    // Handle nulls
-    let a_null = a.is_null(row_a);
-    let b_null = b.is_null(row_b);
-
-    match (a_null, b_null) {
-        (true, true) => return Ordering::Equal,
-        (true, false) => return Ordering::Greater, // nulls last
-        (false, true) => return Ordering::Less,
-        (false, false) => {}
-    }
-
-    // Compare based on type
-    if let Some(arr_a) = a.as_any().downcast_ref::<Int64Array>() {
-        if let Some(arr_b) = b.as_any().downcast_ref::<Int64Array>() {
-            return arr_a.value(row_a).cmp(&arr_b.value(row_b));
-        }
-    }
-
-    if let Some(arr_a) = a.as_any().downcast_ref::<arrow::array::Int32Array>() {
-        if let Some(arr_b) = b.as_any().downcast_ref::<arrow::array::Int32Array>() {
-            return arr_a.value(row_a).cmp(&arr_b.value(row_b));
-        }
-    }
-
-    if let Some(arr_a) = a.as_any().downcast_ref::<Float64Array>() {
-        if let Some(arr_b) = b.as_any().downcast_ref::<Float64Array>() {
-            let va = arr_a.value(row_a);
-            let vb = arr_b.value(row_b);
-            return va.partial_cmp(&vb).unwrap_or(Ordering::Equal);
-        }
-    }
-
-    if let Some(arr_a) = a.as_any().downcast_ref::<StringArray>() {
-        if let Some(arr_b) = b.as_any().downcast_ref::<StringArray>() {
-            return arr_a.value(row_a).cmp(arr_b.value(row_b));
-        }
-    }
-
-    if let Some(arr_a) = a.as_any().downcast_ref::<Date32Array>() {
-        if let Some(arr_b) = b.as_any().downcast_ref::<Date32Array>() {
-            return arr_a.value(row_a).cmp(&arr_b.value(row_b));
-        }
-    }
-
-    Ordering::Equal
-}
-
 /// Partition a batch by hash of key columns
 fn partition_batch_by_hash(
     batch: &RecordBatch,
     key_exprs: &[Expr],
     num_partitions: usize,
 ) -> Result<Vec<Option<RecordBatch>>> {
-    let key_arrays: Result<Vec<ArrayRef>> =
-        key_exprs.iter().map(|e| evaluate_expr(batch, e)).collect();
-    let key_arrays = key_arrays?;
+    let key_arrays = evaluate_key_arrays(batch, key_exprs)?;
 
     // Compute partition for each row
     let mut partition_indices: Vec<Vec<usize>> = (0..num_partitions).map(|_| Vec::new()).collect();
@@ -2206,41 +1984,6 @@ fn read_parquet(path: &PathBuf) -> Result<Vec<RecordBatch>> {
     Ok(batches)
 }
 
-/// Sort a record batch
-fn sort_batch(batch: &RecordBatch, order_by: &[crate::planner::SortExpr]) -> Result<RecordBatch> {
-    use crate::planner::SortDirection;
-    use arrow::compute::{lexsort_to_indices, SortColumn, SortOptions};
-
-    if batch.num_rows() == 0 {
-        return Ok(batch.clone());
-    }
-
-    let sort_columns: Result<Vec<SortColumn>> = order_by
-        .iter()
-        .map(|s| {
-            let values = evaluate_expr(batch, &s.expr)?;
-            Ok(SortColumn {
-                values,
-                options: Some(SortOptions {
-                    descending: s.direction == SortDirection::Desc,
-                    nulls_first: matches!(s.nulls, crate::planner::NullOrdering::NullsFirst),
-                }),
-            })
-        })
-        .collect();
-    let sort_columns = sort_columns?;
-
-    let indices = lexsort_to_indices(&sort_columns, None)?;
-
-    let sorted_columns: Result<Vec<ArrayRef>> = batch
-        .columns()
-        .iter()
-        .map(|col| compute::take(col.as_ref(), &indices, None).map_err(Into::into))
-        .collect();
-
-    RecordBatch::try_new(batch.schema(), sorted_columns?).map_err(Into::into)
-}
-
 // ============================================================================
 // Join Key and Hash Table (reused from hash_join.rs)
 // ============================================================================
@@ -2253,9 +1996,24 @@ struct JoinKey {
 #[derive(Clone)]
 enum JoinValue {
     Null,
+    Bool(bool),
     Int64(i64),
     Float64(ordered_float::OrderedFloat<f64>),
+    Decimal(i128),
     String(String),
+}
+
+impl JoinKey {
+    /// A join key that equals nothing, itself included: it holds a NULL, or
+    /// a NaN (the in-memory join compares DOUBLE keys with IEEE `==`).
+    /// Grouping never asks — there NULLs (and NaNs) do form one group.
+    fn never_matches(&self) -> bool {
+        self.values.iter().any(|v| match v {
+            JoinValue::Null => true,
+            JoinValue::Float64(f) => f.is_nan(),
+            _ => false,
+        })
+    }
 }
 
 impl PartialEq for JoinKey {
@@ -2268,8 +2026,10 @@ impl PartialEq for JoinKey {
             .zip(other.values.iter())
             .all(|(a, b)| match (a, b) {
                 (JoinValue::Null, JoinValue::Null) => true,
+                (JoinValue::Bool(a), JoinValue::Bool(b)) => a == b,
                 (JoinValue::Int64(a), JoinValue::Int64(b)) => a == b,
                 (JoinValue::Float64(a), JoinValue::Float64(b)) => a == b,
+                (JoinValue::Decimal(a), JoinValue::Decimal(b)) => a == b,
                 (JoinValue::String(a), JoinValue::String(b)) => a == b,
                 _ => false,
             })
@@ -2295,6 +2055,14 @@ impl Hash for JoinKey {
                     3u8.hash(state);
                     s.hash(state);
                 }
+                JoinValue::Bool(b) => {
+                    4u8.hash(state);
+                    b.hash(state);
+                }
+                JoinValue::Decimal(d) => {
+                    5u8.hash(state);
+                    d.hash(state);
+                }
             }
         }
     }
@@ -2306,31 +2074,180 @@ struct HashEntry {
     row_idx: usize,
 }
 
+/// Give every batch that is about to be hash-partitioned into spill files ONE
+/// schema with plain (non-dictionary) columns.
+///
+/// The batches an operator collects need not agree: UNION branches carry
+/// their own field names and nullability, and an in-memory join emits
+/// `Dictionary(Int32, Utf8)` strings for some batches (small single-batch
+/// build side) and plain `Utf8` for others (unmatched rows of an outer join).
+/// A spill file has exactly one schema, and the partitions read back from it
+/// are aggregated / joined as one unit, so differences are removed HERE, once:
+/// field names come from `declared` (what the key expressions were planned
+/// against), types from the decoded columns, and every field is nullable.
+/// A column whose type still differs between batches is an explicit error.
+fn unify_spill_batches(
+    batches: Vec<RecordBatch>,
+    declared: &SchemaRef,
+) -> Result<Vec<RecordBatch>> {
+    use arrow::datatypes::{DataType, Field};
+
+    let Some(first) = batches.first() else {
+        return Ok(batches);
+    };
+    let first_schema = first.schema();
+    let has_dictionary = |schema: &SchemaRef| {
+        schema
+            .fields()
+            .iter()
+            .any(|f| matches!(f.data_type(), DataType::Dictionary(_, _)))
+    };
+    if !has_dictionary(&first_schema) && batches.iter().all(|b| b.schema() == first_schema) {
+        return Ok(batches);
+    }
+
+    let plain_type = |dt: &DataType| match dt {
+        DataType::Dictionary(_, value_type) => value_type.as_ref().clone(),
+        other => other.clone(),
+    };
+    let names_from = if declared.fields().len() == first_schema.fields().len() {
+        declared
+    } else {
+        &first_schema
+    };
+    let fields: Vec<Field> = first_schema
+        .fields()
+        .iter()
+        .zip(names_from.fields().iter())
+        .map(|(actual, named)| Field::new(named.name(), plain_type(actual.data_type()), true))
+        .collect();
+    let schema = Arc::new(Schema::new(fields));
+
+    batches
+        .into_iter()
+        .map(|batch| {
+            let columns = batch
+                .columns()
+                .iter()
+                .map(|col| match col.data_type() {
+                    DataType::Dictionary(_, value_type) => {
+                        compute::cast(col.as_ref(), value_type).map_err(QueryError::from)
+                    }
+                    _ => Ok(col.clone()),
+                })
+                .collect::<Result<Vec<_>>>()?;
+            RecordBatch::try_new(schema.clone(), columns).map_err(Into::into)
+        })
+        .collect()
+}
+
+/// Evaluate key expressions to PLAIN arrays: a string column gathered from an
+/// in-memory join's small build side arrives `Dictionary(Int32, Utf8)`-encoded
+/// while the same column from elsewhere is plain `Utf8`. Keys are hashed and
+/// compared by value, so both must reach `extract_join_key` in one
+/// representation — otherwise equal keys land in different partitions (a
+/// group is emitted once per partition, a join match is never found).
+fn evaluate_key_arrays(batch: &RecordBatch, key_exprs: &[Expr]) -> Result<Vec<ArrayRef>> {
+    key_exprs
+        .iter()
+        .map(|e| {
+            let arr = evaluate_expr(batch, e)?;
+            match arr.data_type() {
+                arrow::datatypes::DataType::Dictionary(_, value_type) => {
+                    compute::cast(arr.as_ref(), value_type).map_err(Into::into)
+                }
+                _ => Ok(arr),
+            }
+        })
+        .collect()
+}
+
+/// The key types `extract_join_key` reads exactly. Any other type comes out as
+/// `JoinValue::Null`: harmless for grouping (it only decides the partition,
+/// and decides it the same way for every row), but a join would silently drop
+/// those rows — so the join spill path refuses such keys up front.
+fn ensure_join_key_types_supported(key_arrays: &[ArrayRef]) -> Result<()> {
+    use arrow::datatypes::DataType;
+    for arr in key_arrays {
+        match arr.data_type() {
+            DataType::Int8
+            | DataType::Int16
+            | DataType::Int32
+            | DataType::Int64
+            | DataType::UInt8
+            | DataType::UInt16
+            | DataType::UInt32
+            | DataType::UInt64
+            | DataType::Float32
+            | DataType::Float64
+            | DataType::Boolean
+            | DataType::Utf8
+            | DataType::LargeUtf8
+            | DataType::Date32
+            | DataType::Date64
+            | DataType::Timestamp(_, _)
+            | DataType::Decimal128(_, _) => {}
+            other => {
+                return Err(QueryError::Execution(format!(
+                    "join build side exceeds the memory budget, but the join spill \
+                     path cannot hash a key of type {}. Raise the memory limit for \
+                     this query.",
+                    other
+                )))
+            }
+        }
+    }
+    Ok(())
+}
+
 fn extract_join_key(arrays: &[ArrayRef], row: usize) -> JoinKey {
+    use arrow::array::AsArray;
+    use arrow::datatypes::*;
+
     let values: Vec<JoinValue> = arrays
         .iter()
         .map(|arr| {
             if arr.is_null(row) {
                 return JoinValue::Null;
             }
-
-            if let Some(a) = arr.as_any().downcast_ref::<Int64Array>() {
-                return JoinValue::Int64(a.value(row));
+            // Integers of every width (and the integer-backed temporal types)
+            // share one representation, so an INT key meets a BIGINT key.
+            macro_rules! int {
+                ($t:ty) => {
+                    JoinValue::Int64(arr.as_primitive::<$t>().value(row) as i64)
+                };
             }
-            if let Some(a) = arr.as_any().downcast_ref::<arrow::array::Int32Array>() {
-                return JoinValue::Int64(a.value(row) as i64);
+            match arr.data_type() {
+                DataType::Int8 => int!(Int8Type),
+                DataType::Int16 => int!(Int16Type),
+                DataType::Int32 => int!(Int32Type),
+                DataType::Int64 => int!(Int64Type),
+                DataType::UInt8 => int!(UInt8Type),
+                DataType::UInt16 => int!(UInt16Type),
+                DataType::UInt32 => int!(UInt32Type),
+                DataType::UInt64 => int!(UInt64Type),
+                DataType::Date32 => int!(Date32Type),
+                DataType::Date64 => int!(Date64Type),
+                DataType::Timestamp(TimeUnit::Second, _) => int!(TimestampSecondType),
+                DataType::Timestamp(TimeUnit::Millisecond, _) => int!(TimestampMillisecondType),
+                DataType::Timestamp(TimeUnit::Microsecond, _) => int!(TimestampMicrosecondType),
+                DataType::Timestamp(TimeUnit::Nanosecond, _) => int!(TimestampNanosecondType),
+                DataType::Float32 => JoinValue::Float64(ordered_float::OrderedFloat(
+                    arr.as_primitive::<Float32Type>().value(row) as f64,
+                )),
+                DataType::Float64 => JoinValue::Float64(ordered_float::OrderedFloat(
+                    arr.as_primitive::<Float64Type>().value(row),
+                )),
+                DataType::Decimal128(_, _) => {
+                    JoinValue::Decimal(arr.as_primitive::<Decimal128Type>().value(row))
+                }
+                DataType::Boolean => JoinValue::Bool(arr.as_boolean().value(row)),
+                DataType::Utf8 => JoinValue::String(arr.as_string::<i32>().value(row).to_string()),
+                DataType::LargeUtf8 => {
+                    JoinValue::String(arr.as_string::<i64>().value(row).to_string())
+                }
+                _ => JoinValue::Null,
             }
-            if let Some(a) = arr.as_any().downcast_ref::<UInt64Array>() {
-                return JoinValue::Int64(a.value(row) as i64);
-            }
-            if let Some(a) = arr.as_any().downcast_ref::<arrow::array::Float64Array>() {
-                return JoinValue::Float64(ordered_float::OrderedFloat(a.value(row)));
-            }
-            if let Some(a) = arr.as_any().downcast_ref::<arrow::array::StringArray>() {
-                return JoinValue::String(a.value(row).to_string());
-            }
-
-            JoinValue::Null
         })
         .collect();
 
@@ -2344,14 +2261,13 @@ fn build_hash_table(
     let mut table: HashMap<JoinKey, Vec<HashEntry>> = HashMap::new();
 
     for (batch_idx, batch) in batches.iter().enumerate() {
-        let key_arrays: Result<Vec<ArrayRef>> =
-            key_exprs.iter().map(|e| evaluate_expr(batch, e)).collect();
-        let key_arrays = key_arrays?;
+        let key_arrays = evaluate_key_arrays(batch, key_exprs)?;
+        ensure_join_key_types_supported(&key_arrays)?;
 
         for row_idx in 0..batch.num_rows() {
             let key = extract_join_key(&key_arrays, row_idx);
 
-            if key.values.iter().any(|v| matches!(v, JoinValue::Null)) {
+            if key.never_matches() {
                 continue;
             }
 
@@ -2381,11 +2297,8 @@ fn probe_partition(
     let mut results = Vec::new();
 
     for probe_batch in probe_batches {
-        let probe_key_arrays: Result<Vec<ArrayRef>> = probe_key_exprs
-            .iter()
-            .map(|e| evaluate_expr(probe_batch, e))
-            .collect();
-        let probe_key_arrays = probe_key_arrays?;
+        let probe_key_arrays = evaluate_key_arrays(probe_batch, probe_key_exprs)?;
+        ensure_join_key_types_supported(&probe_key_arrays)?;
 
         let mut build_indices: Vec<(usize, usize)> = Vec::new();
         let mut probe_indices: Vec<usize> = Vec::new();
@@ -2393,7 +2306,7 @@ fn probe_partition(
         for probe_row in 0..probe_batch.num_rows() {
             let key = extract_join_key(&probe_key_arrays, probe_row);
 
-            if key.values.iter().any(|v| matches!(v, JoinValue::Null)) {
+            if key.never_matches() {
                 continue;
             }
 
